@@ -94,35 +94,13 @@ def run(repo, rep):
         rep.check(kw.get(ATTR) == 'depth' and (not norm or c.lineno > norm[0].lineno), 'C11.a', 'python_to_sdocs:passes-depth',
                   '%s:%d' % (m.relpath, c.lineno), 'top-level context gets the normalised depth',
                   'top-level context gets depth_left=%s' % kw.get(ATTR), nontrivial=True)
-    init = ci.methods.get('__init__')
-    st = [s for s in ast.walk(init.node) if isinstance(s, ast.Assign) and src(s.targets[0]) == 'self.' + ATTR]
-    n2 += 1
-    rep.check(len(st) == 1 and src(st[0].value) == ATTR, 'C11.a', 'context.__init__:stores-depth', init.where,
-              'context stores the depth it is given', 'constructor stores %s' % [src(s.value) for s in st])
+    from . import ctxmodel
+    n2 += ctxmodel.report(repo, rep, 'C11.a', lambda k: k == 'ctor:stores:depth_left')
 
     # ---------------------------------------------------------------- C11.b
     n = 0
-    nc = ci.methods.get('nested_call')
-    if nc is None:
-        raise AnalysisError('PrettyContext.nested_call vanished')
-    calls = [c for c in ast.walk(nc.node) if isinstance(c, ast.Call) and call_name(c) == 'self._replace']
-    n += 1
-    ok = False
-    if len(calls) == 1:
-        kw = {k.arg: k.value for k in calls[0].keywords}
-        try:
-            ok = set(kw) == {ATTR} and form(kw[ATTR]) == atom('self.' + ATTR).add(const(-1))
-        except (NotLinear, KeyError):
-            ok = False
-    rep.check(ok, 'C11.b', 'nested_call:decrements-by-one', nc.where, 'nested_call: depth_left - 1 and nothing else',
-              'nested_call derives the context with %s' % [src(c) for c in calls], nontrivial=True)
-    um = ci.methods.get('use_multiline_strategy')
-    if um is not None:
-        n += 1
-        calls = [c for c in ast.walk(um.node) if isinstance(c, ast.Call) and call_name(c) == 'self._replace']
-        rep.check(len(calls) == 1 and {k.arg for k in calls[0].keywords} == {'multiline_strategy'}, 'C11.b',
-                  'use_multiline_strategy:keeps-depth', um.where, 'strategy change does not touch the depth',
-                  'use_multiline_strategy derives the context with %s' % [src(c) for c in calls])
+    n += ctxmodel.report(repo, rep, 'C11.b', lambda k: 'depth_left' in k and not k.startswith('ctor:') or k.endswith(':returns-new-context'),
+                         'one nesting level must cost exactly one unit of depth')
     printers = {}
     for r in facts.registry(repo):
         if r.key in CONTAINER_KEYS and r.fn is not None and r.module is m:
